@@ -1391,11 +1391,22 @@ func (m *mergeQuery) Properties() queryProp {
 
 func getHashCode(n NodeNavigator) uint64 {
 	var sb bytes.Buffer
-	switch n.NodeType() {
-	case AttributeNode, TextNode, CommentNode:
-		sb.WriteString(n.LocalName())
-		sb.WriteByte('=')
-		sb.WriteString(n.Value())
+	// Every string is written with its length in front, so that two different
+	// nodes never produce the same key (names and values may contain '-',
+	// '=' and digits).
+	writeString := func(s string) {
+		sb.WriteString(strconv.Itoa(len(s)))
+		sb.WriteByte(':')
+		sb.WriteString(s)
+	}
+	switch typ := n.NodeType(); typ {
+	case AttributeNode, TextNode, CommentNode, ElementNode:
+		sb.WriteByte('a' + byte(typ))
+		writeString(n.Prefix())
+		writeString(n.LocalName())
+		if typ != ElementNode {
+			writeString(n.Value())
+		}
 		// https://github.com/antchfx/htmlquery/issues/25
 		d := 1
 		for n.MoveToPrevious() {
@@ -1403,23 +1414,6 @@ func getHashCode(n NodeNavigator) uint64 {
 		}
 		sb.WriteByte('-')
 		sb.WriteString(strconv.Itoa(d))
-		for n.MoveToParent() {
-			d = 1
-			for n.MoveToPrevious() {
-				d++
-			}
-			sb.WriteByte('-')
-			sb.WriteString(strconv.Itoa(d))
-		}
-	case ElementNode:
-		sb.WriteString(n.Prefix() + n.LocalName())
-		d := 1
-		for n.MoveToPrevious() {
-			d++
-		}
-		sb.WriteByte('-')
-		sb.WriteString(strconv.Itoa(d))
-
 		for n.MoveToParent() {
 			d = 1
 			for n.MoveToPrevious() {
